@@ -70,6 +70,10 @@ CapsG2 == [strong |-> 99, stored |-> 2, rec |-> 2, weak |-> 0, storedW |-> 0, ov
 OpsBuild == {"New", "CloneRoot", "DropRoot", "AdoptStore", "TakeUnadopt", "Store"}
 CapsB == [strong |-> 2, stored |-> 1, rec |-> 1, weak |-> 0, storedW |-> 0, over |-> FALSE, elide |-> FALSE, scripted |-> 1, edges |-> 99]
 OpsWeak3 == {"New", "CloneRoot", "DropRoot", "AdoptStore", "Downgrade", "StoreWeak", "WeakDrop", "Upgrade"}
+OpsDtorT == {"New", "CloneRoot", "DropRoot", "AdoptStore"}
+OpsDtorW == OpsDtorT \cup {"Downgrade", "StoreWeak"}
+OpsCoreT == {"New", "CloneRoot", "DropRoot", "AdoptStore", "DropStored", "Take"}
+OpsStdT  == {"New", "CloneRoot", "DropRoot", "Store", "Downgrade", "WeakDrop", "TryUnwrap", "MakeMut", "DropDetached"}
 OpsDtorQ == {"New", "CloneRoot", "DropRoot", "AdoptStore", "Downgrade", "StoreWeak"}
 OpsCoreQ == {"New", "CloneRoot", "DropRoot", "Store", "Take", "DropStored", "AdoptStore", "TakeUnadopt", "Adopt"}
 OpsConsumeQ == {"New", "CloneRoot", "DropRoot", "AdoptStore", "Downgrade", "WeakDrop",
